@@ -36,6 +36,8 @@ struct std_string *_ZNSt7__cxx1112basic_stringIcSt11char_traitsIcESaIcEE6appendE
 #endif
 /* std::vector<bloc::Expression*>::vector() : an empty vector */
 struct vec_ExpressionPtr;
+#ifndef OWN_VEC_EXPRESSION_MODEL
 void _ZNSt6vectorIPN4bloc10ExpressionESaIS2_EEC1Ev(struct vec_ExpressionPtr *this) { (void)this; }
 void _ZNSt6vectorIPN4bloc10ExpressionESaIS2_EED1Ev(struct vec_ExpressionPtr *this) { (void)this; }
+#endif
 #endif
